@@ -174,13 +174,14 @@ PROPS["C12"] = {
              "C12blocks/C12longblocks: messages that deviate by the company they keep - every block of one or two TLVs out of {disconnect, padding, unknown, SMP1, SMP1Q, SMP2, SMP3, SMP4, abort} (well-formed messages of a run between two reference provers) "
              "in each honest pre-state (idle, asked, answered, started), both versions, and generated blocks of 3-6 TLVs; no success, no crash, and a fresh honest run each way succeeds afterwards, in the next session when the block ended this one."),
     "assumptions": COMMON_ASSUME,
-    "exhaustive_checks": ["C12sync", "C12degenerate", "C12fields", "C12usercalls", "C12blocks"],
+    "exhaustive_checks": ["C12sync", "C12degenerate", "C12structure", "C12fields", "C12usercalls", "C12blocks"],
     "tests": [
         {"name": "TestProp_C12_Sync", "kind": "plain", "quick": {"shards": 16, "timeout": 900}, "thorough": {"shards": 16, "timeout": 3000}},
         {"name": "TestProp_C12_Blocks", "kind": "plain", "quick": {"shards": 8, "timeout": 600}, "thorough": {"shards": 16, "timeout": 3000}},
         {"name": "TestProp_C12_LongBlocks", "quick": {"shards": 2, "checks": 40, "timeout": 600}, "thorough": {"shards": 8, "checks": 1500, "timeout": 3000}},
         {"name": "TestProp_C12_Deviant", "quick": {"shards": 8, "checks": 10, "timeout": 500}, "thorough": {"shards": 16, "checks": 150, "timeout": 3000}},
         {"name": "TestProp_C12_Fields", "kind": "plain", "quick": {"shards": 8, "timeout": 500}, "thorough": {"shards": 16, "timeout": 3000}},
+        {"name": "TestProp_C12_Structure", "kind": "plain", "quick": {"shards": 8, "timeout": 500}, "thorough": {"shards": 16, "timeout": 3000}},
         {"name": "TestProp_C12_Degenerate", "kind": "plain", "quick": {"shards": 4, "timeout": 500}, "thorough": {"shards": 4, "timeout": 3000}},
         {"name": "TestProp_C12_UserCalls", "kind": "plain", "quick": {"shards": 4, "timeout": 500}, "thorough": {"shards": 4, "timeout": 3000}},
         {"name": "TestKnown_C12_V2GroupCheck", "witness_only": True},
@@ -419,6 +420,7 @@ for _k, _v in _EXTRA.items():
         PROPS[_k]["rule"] += _v
 
 _EXTRA2 = {
+    "C12": " Round 7: C12structure - every structural deviation (element count +1, -1, huge, zero; value cut short; question without terminator; empty record) in every message slot, the first message with and without a question; group elements that are multiples of p (0, p, 2p, 3p) with the matching degenerate proof are judged under version 2 as well (the open finding covers out-of-range elements that are not multiples of p only).",
     "C01": " Round 6: randomness faults are ordinary ops of the attack scripts; the attacker's own exchanges against a v3 victim that knows its peer instance carry that instance's tag (otherwise they are ignored unseen); at the end the attacker tries to read one text of each side with the keys of its own exchanges: a side that reports an honest peer must not be readable for the attacker, a side that reports the attacker's key and session must be.",
     "C02": " Round 6: C02resent - for every text length 12..911 (thorough ..4211), both versions: the text is sent, the peer's client reports it unreadable, the parties re-key, and what comes back marked '[resent] ' must be exactly the text passed to Send.",
     "C03": " Round 6: the peer's disconnect record may carry a value of 1-3 bytes, be preceded by a padding record and travel together with last words.",
